@@ -64,7 +64,8 @@ def _step(ldr, op, seed):
     if n == "group_first":
         return next(iter(ldr.groupby("k")))[1]
     if n == "accessor_first":
-        return ldr.loaders[0]
+        # both ways of reaching a batch's sub-loaders: indexing and iteration
+        return ldr.loaders[0] if seed % 2 == 0 else next(iter(ldr.loaders))
     if n == "add_tomogram":
         tomo = np.zeros((24, 24, 24), np.float32)
         return ldr.add_tomogram(tomo, Molecules(np.array([[9.0, 9, 9]]) * float(ldr.scale), features=pl.DataFrame({"k": [1]})))
